@@ -44,6 +44,10 @@ RIsDouble(a) == Undefined        \* exactly representable in binary64?
 RSqrtLo(a, digits) == Undefined  \* largest k/10^digits with square <= a
 RSqrtHi(a, digits) == Undefined  \* RSqrtLo + 1/10^digits
 
+\* Force(v) = v.  Evaluated by a Java override that converts v and everything nested in it to explicit values: TLC
+\* evaluates [x \in S |-> e] to a lazy lambda whose every application re-evaluates e, and TLCEval forces one level only.
+Force(v) == v
+
 Zero == "0"
 One == "1"
 RGt(a, b) == RLt(b, a)
